@@ -1,9 +1,10 @@
 #!/bin/bash
 # Detection matrix: runs every stored seed (/verif/seeded/*/patch.diff) against the quick check of the property it
 # breaks, in a scratch copy (repo worktree + copy of /verif with paths rewritten), so that /repo and /verif stay free.
-# usage: matrix.sh [seed names...]   (default: all)    output: /verif/seeded/RESULTS.md (+ /root/scratch/mx/logs)
+# usage: [MX=<scratch dir>] matrix.sh [seed names...]   (default: all)   prints one line per (seed, check); tools/matrix_all.sh
+# runs two shards in parallel and writes /verif/seeded/RESULTS.md
 set -u
-MX=/root/scratch/mx
+MX=${MX:-/root/scratch/mx}
 mkdir -p $MX/logs
 if [ ! -d $MX/repo ]; then git -C /repo worktree add -q --detach $MX/repo HEAD; fi
 git -C $MX/repo checkout -q --detach "$(git -C /repo rev-parse HEAD)"; git -C $MX/repo checkout -q -- .
